@@ -86,6 +86,7 @@ func sampleReplay(in io.Reader, raw bool, args []string) (*Summary, error) {
 				}
 			}()
 			sampleAwkward(sum, c, &sc, rng)
+			sampleExtremes(sum, c, &sc)
 		}()
 	})
 	return sum, err
@@ -171,6 +172,77 @@ func sampleAwkward(sum *Summary, c json.RawMessage, sc *sCase, rng *rand.Rand) {
 			if results[k].r < results[k-1].r {
 				sum.viol("Quantile-monotone", c, "awkward map %d: Quantile(%v)=%.17g < Quantile(%v)=%.17g", ai, results[k].q, results[k].r, results[k-1].q, results[k-1].r)
 			}
+		}
+	}
+}
+
+// sampleExtremes: (1) the data mapped to (x+3)*2^1021 - finite data whose SUM overflows: Mean, Bounds and Quantile still lie in
+// [min, max]; (2) weighted data whose zero-weight slots hold huge garbage: "zero-weight values are ignored" whatever they are.
+func sampleExtremes(sum *Summary, c json.RawMessage, sc *sCase) {
+	n := len(sc.Init.Xs)
+	if n == 0 || len(sc.Objs) == 0 {
+		return
+	}
+	so := sc.Objs[0]
+	if !sc.Init.Weighted {
+		// x -> (x + 3) * 2^1021: all values positive (differences never overflow), any three of them sum beyond MaxFloat64
+		big1 := math.Ldexp(1, 1021)
+		x := &stats.Sample{Xs: make([]float64, n), Sorted: sc.Init.Sorted}
+		for i, v := range sc.Init.Xs {
+			x.Xs[i] = float64(v+3) * big1
+		}
+		lo, hi := x.Xs[0], x.Xs[0]
+		for _, v := range x.Xs {
+			lo, hi = math.Min(lo, v), math.Max(hi, v)
+		}
+		sum.Checks++
+		wm := new(big.Rat).Mul(new(big.Rat).Add(big.NewRat(so.Mean.V[0], so.Mean.V[1]), big.NewRat(3, 1)), ratF(big1))
+		for _, m := range []float64{x.Mean(), stats.Mean(x.Xs)} {
+			if !(m >= lo && m <= hi) || !closeRat(m, wm, 0, 1e-12) {
+				sum.viol("Mean-overflow", c, "data mapped to (x+3)*2^1021: Mean=%v, want %v inside [%v, %v]", m, rf(wm), lo, hi)
+			}
+		}
+		if bl, bh := x.Bounds(); bl != lo || bh != hi {
+			sum.viol("Bounds", c, "data mapped to (x+3)*2^1021: Bounds=(%v,%v) want (%v,%v)", bl, bh, lo, hi)
+		}
+		for _, q := range []float64{0, 0.3, 0.5, 0.9, 1} {
+			if g := x.Quantile(q); !(g >= lo && g <= hi) {
+				sum.viol("Quantile-bounds", c, "data mapped to (x+3)*2^1021: Quantile(%v)=%v outside [%v, %v]", q, g, lo, hi)
+			}
+		}
+		return
+	}
+	zero := false
+	for _, w := range sc.Init.Ws {
+		zero = zero || w == 0
+	}
+	if !zero {
+		return
+	}
+	for gi, garbage := range []float64{1e17, -1e17, 3e300} {
+		x := &stats.Sample{Xs: make([]float64, n), Weights: make([]float64, n), Sorted: false}
+		ref := &stats.Sample{Xs: make([]float64, n), Weights: make([]float64, n), Sorted: false}
+		for i, v := range sc.Init.Xs {
+			x.Xs[i], ref.Xs[i] = float64(v), float64(v)
+			x.Weights[i], ref.Weights[i] = float64(sc.Init.Ws[i]), float64(sc.Init.Ws[i])
+			if sc.Init.Ws[i] == 0 {
+				x.Xs[i] = garbage
+			}
+		}
+		sum.Checks++
+		same := func(a, b float64) bool {
+			return a == b || (math.IsNaN(a) && math.IsNaN(b)) || math.Abs(a-b) <= 1e-12*math.Max(1, math.Abs(b))
+		}
+		if a, b := x.Mean(), ref.Mean(); !same(a, b) {
+			sum.viol("Mean-zero-weight", c, "zero-weight slots holding %v (garbage %d): Mean=%v, with the original values %v", garbage, gi, a, b)
+		}
+		if a, b := x.Sum(), ref.Sum(); !same(a, b) {
+			sum.viol("Sum-zero-weight", c, "zero-weight slots holding %v: Sum=%v, with the original values %v", garbage, a, b)
+		}
+		al, ah := x.Bounds()
+		bl, bh := ref.Bounds()
+		if !same(al, bl) || !same(ah, bh) {
+			sum.viol("Bounds-zero-weight", c, "zero-weight slots holding %v: Bounds=(%v,%v), with the original values (%v,%v)", garbage, al, ah, bl, bh)
 		}
 	}
 }
